@@ -211,9 +211,11 @@ class ReadElementStatus(SCSICommand):
                 _r += _rr
                 if _esp["pvoltag"]:
                     _rr = bytearray(36)
+                    _rr[:] = _ed.get("primary_volume_tag", _rr)[:36]
                     _r += _rr
                 if _esp["avoltag"]:
                     _rr = bytearray(36)
+                    _rr[:] = _ed.get("alternate_volume_tag", _rr)[:36]
                     _r += _rr
                 _rr = bytearray(4)
                 _r += _rr
